@@ -167,7 +167,7 @@ def _get_aliases(result_types: dict, package_name: str) -> dict[str, set[str]]:
                     ):
                         fullname = key.node.target.type.fullname
                     elif isinstance(type_value, mypy_types.CallableType):
-                        bound_args = type_value.bound_args
+                        bound_args = _get_bound_args(type_value)
                         if bound_args and hasattr(bound_args[0], "type"):
                             fullname = bound_args[0].type.fullname  # type: ignore[union-attr]
                     elif hasattr(key, "node") and isinstance(key.node, mypy_nodes.Var):
@@ -186,8 +186,9 @@ def _get_aliases(result_types: dict, package_name: str) -> dict[str, set[str]]:
                     continue
 
             if in_package:
-                if isinstance(type_value, mypy_types.CallableType) and hasattr(type_value.bound_args[0], "type"):
-                    fullname = type_value.bound_args[0].type.fullname  # type: ignore[union-attr]
+                bound_args = _get_bound_args(type_value) if isinstance(type_value, mypy_types.CallableType) else []
+                if bound_args and hasattr(bound_args[0], "type"):
+                    fullname = bound_args[0].type.fullname  # type: ignore[union-attr]
                 elif isinstance(type_value, mypy_types.Instance):
                     fullname = type_value.type.fullname
                 elif isinstance(key, mypy_nodes.TypeVarExpr):
@@ -200,3 +201,17 @@ def _get_aliases(result_types: dict, package_name: str) -> dict[str, set[str]]:
                 aliases[name].add(fullname)
 
     return aliases
+
+
+def _get_bound_args(callable_type: mypy_types.CallableType) -> list:
+    """Get the bound arguments of a callable type.
+
+    Newer mypy versions removed the attribute "bound_args" of CallableType. For class objects the bound argument is
+    the instance type the class object creates, which is the return type of the callable.
+    """
+    bound_args = getattr(callable_type, "bound_args", None)
+    if bound_args is not None:
+        return list(bound_args)
+    if callable_type.is_type_obj():
+        return [callable_type.ret_type]
+    return []
